@@ -95,6 +95,7 @@ var staticForbid = map[string][]string{"static-parseable-twice": {"EsAmount2", "
 // staticExpect: substrings the String() of a static case must contain
 var staticExpect = map[string][]string{"static-alias": {"<word>", "<number>*", "<ident>?", "<name>?"},
 	"static-parseable-twice": {`"from" EsAmount "to" EsAmount ("step" EsAmount)*`},
+	"static-two-custom":      {`EsKey "=" EsVal`},
 	"static-embedded-3":      {`"public"? "static"? <ident> (":" <int>)? ("," <ident>)*`},
 	"static-forproduction":   {`EsFP = <ident> "=" EsFPSub ("+" <ident>)* .`, `EsFPSub = "(" <ident> ")" .`}}
 
@@ -124,6 +125,32 @@ type esFP struct {
 	More []string `( "+" @Ident )*`
 }
 
+// two productions implemented by functions registered with ParseTypeWith, side by side
+type EsKey interface{}
+type EsVal interface{}
+
+func parseEsKey(lex *lexer.PeekingLexer) (EsKey, error) {
+	t := lex.Peek()
+	if t.EOF() || t.Value == "=" {
+		return nil, participle.NextMatch
+	}
+	lex.Next()
+	return "key:" + t.Value, nil
+}
+func parseEsVal(lex *lexer.PeekingLexer) (EsVal, error) {
+	t := lex.Peek()
+	if t.EOF() {
+		return nil, participle.NextMatch
+	}
+	lex.Next()
+	return "val:" + t.Value, nil
+}
+
+type esEntry struct {
+	K EsKey `@@ "="`
+	V EsVal `@@`
+}
+
 var staticEbnf = map[string]struct {
 	root string
 	mk   func() (gengram.Built, error)
@@ -133,7 +160,18 @@ var staticEbnf = map[string]struct {
 	"static-anon-rec":        {"EsAnonRec", func() (gengram.Built, error) { return participle.Build[esAnonRec]() }},
 	"static-unicode-names":   {"EsGröße", func() (gengram.Built, error) { return participle.Build[EsGröße]() }},
 	"static-parseable-twice": {"EsTransfer", func() (gengram.Built, error) { return participle.Build[esTransfer]() }},
-	"static-embedded-3":      {"EsL0", func() (gengram.Built, error) { return participle.Build[esL0]() }},
+	"static-two-custom": {"EsEntry", func() (gengram.Built, error) {
+		p, err := participle.Build[esEntry](participle.ParseTypeWith(parseEsKey), participle.ParseTypeWith(parseEsVal))
+		if err != nil {
+			return nil, err
+		}
+		// (the right function for each: the parse result shows which one ran)
+		if v, err := p.ParseString("", "a = b"); err != nil || v.K != "key:a" || v.V != "val:b" {
+			return nil, fmt.Errorf("two ParseTypeWith productions: %+v %v", v, err)
+		}
+		return p, nil
+	}},
+	"static-embedded-3": {"EsL0", func() (gengram.Built, error) { return participle.Build[esL0]() }},
 	"static-forproduction": {"EsFP", func() (gengram.Built, error) {
 		p, err := participle.Build[esFP]()
 		if err != nil {
